@@ -239,9 +239,18 @@ pub mod test {
             let mut blockchain = self.blockchain_lock.write().await;
             let mut mempool = self.mempool_lock.write().await;
 
+            #[cfg(saito_verif)]
+            let verif_pre = crate::core::consensus::verif_hook::before_add(
+                &blockchain,
+                &block,
+                blockchain.initial_loading_completed
+                    || configs.get_blockchain_configs().initial_loading_completed,
+            );
             let result = blockchain
                 .add_block(block, &mut self.storage, &mut mempool, configs.deref())
                 .await;
+            #[cfg(saito_verif)]
+            crate::core::consensus::verif_hook::after_add(&blockchain, verif_pre, &result);
 
             self.latest_block_hash = blockchain.last_block_hash;
             result
@@ -984,9 +993,18 @@ pub mod test {
             let genblock: Block = mempool
                 .bundle_genesis_block(&mut blockchain, timestamp, configs.deref(), &self.storage)
                 .await;
+            #[cfg(saito_verif)]
+            let verif_pre = crate::core::consensus::verif_hook::before_add(
+                &blockchain,
+                &genblock,
+                blockchain.initial_loading_completed
+                    || configs.get_blockchain_configs().initial_loading_completed,
+            );
             let _res = blockchain
                 .add_block(genblock, &mut self.storage, &mut mempool, configs.deref())
                 .await;
+            #[cfg(saito_verif)]
+            crate::core::consensus::verif_hook::after_add(&blockchain, verif_pre, &_res);
         }
 
         //convenience function assuming longest chain
